@@ -857,6 +857,10 @@ mod type_util;
 mod versioning;
 mod websocket;
 
+#[cfg(dropshot_verif)]
+#[doc(hidden)]
+pub mod verif_hooks;
+
 pub mod test_util;
 
 #[macro_use]
